@@ -430,6 +430,11 @@ func c06Revision(c *core.Ctx) {
 			pv, _ = core.ObjOf(info, ns[0].Arg(4)).(*types.Var)
 		}
 		ok := false
+		// the value may be computed by a novel private helper (extracted from Handshake): judge the variable it returns
+		if hu, hv := followNovelResult(c, hs, pv); hu != nil {
+			c.Touch(hu)
+			hs, pv, info, g = hu, hv, hu.Info(), hu.Graph()
+		}
 		if pv != nil {
 			as := assignsIn(hs, func(l ast.Expr) bool { return core.ObjOf(info, l) == types.Object(pv) })
 			var d3, d4 *Assign
